@@ -1,6 +1,10 @@
 package main
 
-import "golang.org/x/tools/go/ssa"
+import (
+	"go/types"
+
+	"golang.org/x/tools/go/ssa"
+)
 
 func SLt(a, b *Term) *Term { return Cmp(OSLt, a, b) }
 func SLe(a, b *Term) *Term { return Cmp(OSLe, a, b) }
@@ -18,6 +22,19 @@ func isNilFunc(v value) bool {
 		return f == nil
 	case *boundFn:
 		return f == nil
+	}
+	return false
+}
+
+// hasFmtMethod reports whether values of type t carry a method that package fmt
+// consults when formatting (Formatter, Stringer, error, GoStringer).
+func hasFmtMethod(t types.Type) bool {
+	ms := types.NewMethodSet(t)
+	for i := 0; i < ms.Len(); i++ {
+		switch ms.At(i).Obj().Name() {
+		case "Format", "String", "Error", "GoString":
+			return true
+		}
 	}
 	return false
 }
